@@ -456,6 +456,9 @@ class WebSocketApp:
             return True
 
         def check() -> bool:
+            if not self.keep_running:
+                # close() was called (possibly from the callback just run): nothing left to judge
+                return False
             if self.ping_timeout:
                 # the ping thread updates last_ping_tm concurrently: judge one consistent snapshot
                 last_ping_tm = self.last_ping_tm
